@@ -111,11 +111,22 @@ static void lg_report(const char *entry, const char *rule, const uint8_t *d, siz
 /* ---------------------------------------------------------------- touching results */
 static volatile unsigned lg_sink;
 
+#if defined(__has_feature)
+#  if __has_feature(memory_sanitizer)
+#    include <sanitizer/msan_interface.h>
+#    define LG_MSAN_CHECK(p, n) __msan_check_mem_is_initialized((p), (n))
+#  endif
+#endif
+#ifndef LG_MSAN_CHECK
+#  define LG_MSAN_CHECK(p, n) ((void)0)
+#endif
+
 static void lg_touch(const void *p, size_t n)
 {
   const volatile uint8_t *c = (const volatile uint8_t *)p;
   size_t                  i;
   unsigned                s = 0;
+  LG_MSAN_CHECK(p, n); /* MSan flavor: every byte of a returned result must be initialised */
   for (i = 0; i < n; i++) {
     s += c[i];
   }
